@@ -708,13 +708,13 @@ def check(run):
                 "identical in both siblings; (R06b) the alias-conflict comparison compares two raw inputs; (R06c) the "
                 "selector is exclusive, passes identical arguments and returns the result unchanged.")
     pd, A, B = siblings(run)
-    r06a(run, A, B)
-    r06b(run, [A, B])
-    r06c(run, pd, A, B)
-    r06d(run, A, B)
-    r06f(run, A, B)
-    r06g(run, A, B)
-    r06h(run)
-    r06i(run, A, B)
-    r06j(run, A, B)
-    r06e(run)
+    run.rule(r06a, run, A, B)
+    run.rule(r06b, run, [A, B])
+    run.rule(r06c, run, pd, A, B)
+    run.rule(r06d, run, A, B)
+    run.rule(r06f, run, A, B)
+    run.rule(r06g, run, A, B)
+    run.rule(r06h, run)
+    run.rule(r06i, run, A, B)
+    run.rule(r06j, run, A, B)
+    run.rule(r06e, run)
